@@ -31,9 +31,16 @@ Proof.
   cbn [lex_seg]. rewrite E1, E2, E3, E4. rewrite (IH Hn f) by (cbn in Hf; lia). reflexivity.
 Qed.
 
+Lemma has_2stars_plain n : forallb class_plain n = true -> has_2stars n = false.
+Proof.
+  induction n as [|c n IH]; [reflexivity|]. cbn [forallb]. intros H. apply andb_true_iff in H. destruct H as (Hc & Hn).
+  cbn [has_2stars]. destruct n as [|d n']; [reflexivity|].
+  destruct (class_plain_facts c Hc) as (_ & -> & _). cbn [andb orb]. apply IH, Hn.
+Qed.
+
 Lemma read_seg_plain n : n <> [] -> forallb class_plain n = true -> read_seg n = SOk (SGlob (map GLit n)).
 Proof.
-  intros Hne H. unfold read_seg.
+  intros Hne H. unfold read_seg. rewrite (has_2stars_plain n H).
   assert (forallb is_star n = false) as ->.
   { destruct n as [|c n]; [contradiction|]. cbn in H |- *. apply andb_true_iff in H.
     destruct (class_plain_facts c (proj1 H)) as (_ & -> & _). reflexivity. }
